@@ -1,3 +1,4 @@
+import os
 from functools import reduce
 from itertools import takewhile
 from typing import Dict
@@ -17,6 +18,10 @@ from parglare.trees import (
     to_str,
     visitor,
 )
+
+
+# Verification hooks (add-only, off unless PARGLARE_VERIF=1).
+_VERIF = os.environ.get("PARGLARE_VERIF") == "1"
 
 
 def no_colors(f):
@@ -96,6 +101,12 @@ class GLRParser(Parser):
 
         self.file_name = file_name
         extra = {} if extra is None else extra
+
+        if _VERIF:
+            # NodeNonTerm objects created while revisiting processed heads
+            # (limited/update reductions), kept for call-site attribution.
+            self._verif_revisit_depth = 0
+            self._verif_revisit_nodes = {}
 
         # Error reporting and recovery
         self.errors = []
@@ -335,6 +346,8 @@ class GLRParser(Parser):
         if start_position is None:
             start_position = end_position = root_head.position
         state = root_head.state.gotos[production.symbol]
+        if _VERIF and self._verif_revisit_depth > 0:
+            self._verif_revisit_nodes[id(node_nonterm)] = node_nonterm
 
         if self.debug:
             self.debug_step += 1
@@ -395,6 +408,8 @@ class GLRParser(Parser):
                             f"active heads in states {to_revisit}",
                             level=1,
                         )
+                    if _VERIF:
+                        self._verif_revisit_depth += 1
                     for r_head_state in to_revisit:
                         r_head = self._active_heads[r_head_state]
                         for action in [
@@ -403,6 +418,8 @@ class GLRParser(Parser):
                             if a.action == REDUCE
                         ]:
                             self._do_reductions(r_head, action.prod, parent)
+                    if _VERIF:
+                        self._verif_revisit_depth -= 1
         else:
             # No cycles. Do the reduction.
             new_head.create_link(parent)
